@@ -23,7 +23,7 @@ from ..probes import lblock_class, Fault
 PROPERTY = 'C14'
 LEVEL = 'model_checking'
 LEVEL_TEXT = ("Bounded exhaustive exploration of the real life cycle on the virtual loop: for "
-              "each phase (11) x termination cause, every data shape (23) x destination kind (6) x "
+              "each phase (14) x termination cause, every data shape (23) x destination kind (6) x "
               "default source (7) is sent with ExtEvent.send(); delivered iff the phase is 'task "
               "started and no error yet', otherwise EdzedInvalidState and the destination saw "
               "nothing; delivered data and return values compared with a reference; plus the "
@@ -40,11 +40,11 @@ RULE = ("a case = (phase, cause, destination kind, default source, data shape); 
 ASSUMPTIONS = ["'running' = the simulation task has started and no error/stop was requested yet "
                "(docs/simulation.rst: is_ready)"]
 
-PHASES = ['built', 'finalized', 'aborted-before-start', 'task-created', 'sync-init', 'async-init', 'running', 'abort-called',
+PHASES = ['built', 'finalized', 'aborted-before-start', 'task-created', 'first-yield', 'sync-init', 'async-init', 'running', 'abort-called',
           'stopping-sync', 'stopping-async', 'finished', 'start-failed', 'reset']
 CAUSES = ['shutdown', 'abort-exc', 'handler-error', 'cancel-task', 'ctrl-shutdown', 'ctrl-abort',
           'calc-error', 'task-error']
-DELIVER = {'sync-init', 'async-init', 'running'}
+DELIVER = {'first-yield', 'sync-init', 'async-init', 'running'}
 
 MUT = [1, 2]
 SHAPES = [
@@ -72,7 +72,7 @@ def configs(tier):
         else:
             out.append(dict(kind='phase', phase=ph, cause=None))
     out += [dict(c, persist=True) for c in out
-            if tier != 'quick' or c['phase'] in ('running', 'sync-init', 'async-init', 'built', 'finished')]
+            if tier != 'quick' or c['phase'] in ('running', 'first-yield', 'sync-init', 'async-init', 'built', 'finished')]
     # an error inside the simulation task (failing output function, unstable network, failing
     # monitored task): from the moment it happened - in every following loop iteration - the
     # circuit is not running any more
@@ -303,6 +303,12 @@ def run_phase(cfg, acc):
             if phase == 'task-created':
                 fire_all('task created, not yet running')
             await asyncio.sleep(0)
+            if phase == 'first-yield':
+                # the simulation task has started the blocks and yields for the first time: the
+                # circuit is ready, no block has done any initialisation step yet
+                if not circuit.is_ready():
+                    raise RuntimeError('harness: circuit not ready at the first yield')
+                fire_all('blocks started, initialisation not yet begun')
             if phase == 'start-failed':
                 await sim.loop.idle()
                 fire_all('after a failed start')
